@@ -50,7 +50,8 @@ def gen_case(rng, idx, dwin=False, reuse=False):
     return {'nodes': nodes, 'seed': rng.randrange(1 << 30), 'aseed': rng.randrange(1 << 30), 'mode': mode, 'ne16': ne16,
             'ap': [8] if ne16 else rng.sample(PRECS, rng.randint(1, 3)), 'wp': wp, 'T': T,
             'gumbel': (rng.random() < 0.4) and phase == 'eval', 'hard': True if phase == 'hardtrain' else rng.random() < 0.3,
-            'dsq': rng.random() < 0.25 and mode != 'chan0', 'phase': phase, 'idx': idx, 'dwin': dwin}
+            'dsq': rng.random() < 0.25 and mode != 'chan0', 'phase': phase, 'idx': idx, 'dwin': dwin,
+            'respec': rng.choice([None, None, None, 'single', 'rebind', 'rebind-one']), 'batch': rng.choice([None, None, 1, 2, 3, 4])}
 
 
 def gen_dwsel(rng, idx):
@@ -155,9 +156,30 @@ def run_case(c):
         ishape = G.input_shape(nodes)
         dim = nodes[0].get('dim', 2)
         stage = 'convert'
-        p = MPS(m, input_shape=ishape, qinfo=get_default_qinfo(tuple(c['wp']), tuple(c['ap'])), cost=specs,
+        # how the cost specification reaches the model: given at construction (default), or re-assigned afterwards through the
+        # cost_specification setter: single spec -> dict; dict -> dict with the SAME names bound to other CostSpecs (names
+        # permuted / re-bound).  get_cost(name) must always evaluate what the name is bound to NOW.
+        rs = c.get('respec')
+        init_cost = specs
+        if rs == 'single':
+            init_cost = [params_bit, ops_bit][c['aseed'] % 2]
+        elif rs == 'rebind':
+            names_ = list(specs)
+            perm = list(names_)
+            random.Random(c['aseed'] ^ 0x1234).shuffle(perm)
+            if perm == names_:
+                perm = names_[1:] + names_[:1]
+            init_cost = {n: specs[q_] for n, q_ in zip(names_, perm)}
+        elif rs == 'rebind-one':
+            init_cost = dict(specs)
+            init_cost['ob'], init_cost['probe_in'] = specs['pb'], specs['probe_out']
+        # how the tracing input is given: input_shape (batch 1), or an input_example with batch size > 1 (costs are per inference)
+        tr = {'input_shape': ishape} if not c.get('batch') else {'input_example': torch.rand((c['batch'],) + ishape)}
+        p = MPS(m, qinfo=get_default_qinfo(tuple(c['wp']), tuple(c['ap'])), cost=init_cost, **tr,
                 w_search_type=MPSType.PER_LAYER if c['mode'] == 'layer' else MPSType.PER_CHANNEL,
                 temperature=c['T'], gumbel_softmax=c['gumbel'], hard_softmax=c['hard'], disable_shared_quantizers=c['dsq'])
+        if rs:
+            p.cost_specification = specs
         rng = random.Random(c['aseed'])
         G.set_alphas(rng, p)
         L = G.mps_layers(nodes, p)
@@ -463,7 +485,7 @@ def model_exprs(c, o, fixed):
 def run(ctx):
     built = ctx.build()
     ctx.rule = ('grammar networks of vlib/mps_gen.py x search mode {per-layer (1/2), per-channel, per-channel with 0-bit (1/3)} x precision tuples from {2,4,8} (+0), any order x random alpha with arg-max margin '
-                'x temperature in [0.05,20] x gumbel/hard/disable_shared_quantizers flags x phase {eval, training with hard non-Gumbel sampling}; NE16 cases: activations (8,), kernels {1,3}. '
+                'x temperature in [0.05,20] x gumbel/hard/disable_shared_quantizers flags x phase {eval, training with hard non-Gumbel sampling} x cost specification {given at construction, re-assigned through the cost_specification setter: single -> dict, dict -> dict with the names re-bound / permuted} x tracing input {input_shape, input_example of batch 1..4: costs are per inference}; NE16 cases: activations (8,), kernels {1,3}. '
                 'separate streams: (r) one conv (c->c) / linear (h->h) module invoked twice, at the same or (after pooling) another resolution: per-invocation specs compared per call site; (a) pruned depthwise layer in the network-input group (open finding, own key); (b) disable_shared_quantizers=True x per-channel 0-bit x chain conv -> depthwise (Conv1d and Conv2d) where the producer prunes channels the depthwise layer keeps (cost DIFFERENCE when only the depthwise bits change must be own weights x delta bits) or vice versa. '
                 'one case = one network with one coefficient assignment, 5-6 cost specs; distinct by (architecture, mode, precisions, selected assignment); non-trivial = some layer has >= 2 candidate weight precisions')
     n = 240 if ctx.quick else 2400
@@ -494,6 +516,8 @@ def run(ctx):
         ctx.case(key, nontrivial=len(c['wp']) > 1, kind='exc' if o['exc'] else c['mode'] + ':' + c['phase'],
                  sample={'nodes': kinds, 'mode': c['mode'], 'phase': c['phase'], 'ap': c['ap'], 'wp': c['wp'], 'T': c['T'], 'costs': o.get('costs')})
         ctx.dist['ne16:%s' % c['ne16']] += 1
+        ctx.dist['cost-spec:%s' % (c.get('respec') or 'at-construction')] += 1
+        ctx.dist['tracing:%s' % ('input_shape' if not c.get('batch') else 'input_example-batch-%d' % c['batch'])] += 1
         if G.has_reuse(c['nodes']):
             ctx.dist['layer-invoked-twice'] += 1
         if c.get('dwsel'):
@@ -562,6 +586,7 @@ def replay(r):
         return 1
     o = run_case(c)
     print('network:', [nd['k'] for nd in c['nodes']])
+    print('cost specification:', c.get('respec') or 'given at construction', '| tracing input:', 'input_shape' if not c.get('batch') else 'input_example with batch %d' % c['batch'])
     print('mode', c['mode'], 'phase', c['phase'], 'activation precisions', c['ap'], 'weight precisions', c['wp'], 'T', c['T'])
     print('property requires: get_cost == exact bit cost of the assignment summary() reports; cost functions shown effective feature counts under in_channels/out_channels (conv) resp. in_features/out_features (linear)')
     if o['exc']:
